@@ -26,6 +26,7 @@ import os
 import threading
 
 TICK = 1.0 / 64.0
+MAX_LOG = 12000
 FRAME = {'registered': 900, 'unregistered': 901, 'prepare_unregister': 902, 'started': 903,
          'stopped': 904, 'generate_events': 905, 'exception': 906}
 SUFFIX = {'done': 1, 'success': 2, 'failure': 3, 'complete': 4, 'value_changed': 5}
@@ -908,7 +909,14 @@ def run_both(ctx, scenarios):
             rec['error'] = f'{type(e).__name__}: {e}\n{traceback.format_exc()[-1500:]}'
             rec['impl'] = w.oplogs
             rec['blocked'] = w.blocked
-        lines, first = model_lines(sc, w.log, getattr(w, 'ops', []))
+        if len(w.log) > MAX_LOG:
+            # a run that produced an enormous log (e.g. a loop that no longer ends its idle iterations) would keep the
+            # model driver busy for minutes: the oracles still judge the implementation's log, the model is not asked
+            rec['oversize'] = True
+            w.ops_model = []
+            lines, first = model_lines(sc, [], [])
+        else:
+            lines, first = model_lines(sc, w.log, getattr(w, 'ops', []))
         rec['first'] = first
         rec['lines'] = lines
         cases_lines.append(lines)
@@ -920,7 +928,7 @@ def run_both(ctx, scenarios):
         bad = [(l, a) for l, a in zip(rec['lines'][:first], setup) if not a.startswith('ok')]
         if bad:
             rec['error'] = (rec['error'] or '') + f' model setup rejected: {bad[:3]}'
-        nops = len(getattr(rec['world'], 'ops', []))
+        nops = 0 if rec.get('oversize') else len(getattr(rec['world'], 'ops', []))
         model_ops = []
         for a in ans[first:first + nops]:
             head, _, tail = a.partition(' | ')
